@@ -114,6 +114,10 @@ func runAssumeCase(o *Oracle, d json.RawMessage, oc *Outcome) {
 		oc.Tag("base-parse-unsat")
 	}
 	s := solver.New(pb)
+	if len(c.Cnf)%3 == 0 { // a small limit on learned clauses: the database is reduced while assumptions are installed
+		s.VerifSetNbMax(4 + 12*(len(c.Cnf)%2))
+		oc.Tag("small-learned-limit")
+	}
 	analyses := sampleAnalyses(s, 10, 15, 40)
 	defer func() {
 		s.VerifSetAnalyzeHook(nil)
